@@ -646,6 +646,10 @@ func c07(c *an.Ctx) {
 		ruleParseBinlogRow(c, o)
 	})
 
+	c.Check("R-PROV", "binlog rows are decoded by the same scanner as query rows: an empty, non-NULL []byte value must not be decoded as NULL (the tester would then disagree with WHERE col = '') - rule shared with C13", 2, func(o *an.O) {
+		ruleScannerBytesCopy(c, o)
+	})
+
 	c.Check("R-PROV", "the in-memory tester sees each value converted by the column Valuer exactly once (MakeTester keeps the filter's own values): a filter on a json / binary / string tagged column still matches its rows", 3, func(o *an.O) {
 		ruleValuerOnce(c, o)
 	})
